@@ -449,9 +449,18 @@ fn task_reject(
                 return false;
             }
         }
+        TaskRuntimeState::RunningMultiNode(ws) => {
+            // Multi-node tasks have no separate "assigned" state; the root worker
+            // may still refuse to start the task (e.g. its remaining lifetime has become
+            // shorter than the time request while the message was on the way).
+            if worker_id != ws[0] {
+                log::debug!("Rejection from invalid worker");
+                return false;
+            }
+            reset_mn_task_workers(worker_map, ws, task_id);
+        }
         TaskRuntimeState::Waiting { .. }
         | TaskRuntimeState::Running { .. }
-        | TaskRuntimeState::RunningMultiNode(_)
         | TaskRuntimeState::Finished => {
             unreachable!()
         }
